@@ -3,11 +3,14 @@
           kind Success 0 | Revert 1 | Panic 2 | FailFlag 3 | Stuck 4;
           answer Sat true 0 | Sat false 1 | Unsat 2 | Unknown 3 | Err 4 (None = -1);
           action ASubmit 0 | AStuckSolve 1 | ACountNormal 2 | ANone 3;
-          event EvMain = -1 | EvMainRaise = -2 | EvCb j = j. *)
+          event EvMain = -1 | EvMainRaise = -2 | EvCb j = j;
+          cache event CMain = -1 | CMainRaise = -2 | CStart j = 2j | CCb j = 2j+1;
+          optional core: -1 = None | len, items. *)
 From Coq Require Import ZArith List Bool String Ascii.
 From Coq Require Extraction.
 From Coq Require Import ExtrOcamlBasic ExtrOcamlString.
-From HV Require Import Spec.VerdictSpec Gen.GenVerdict Gen.GenSolveDispatch Model.VerdictModel.
+From HV Require Import Spec.VerdictSpec Gen.GenVerdict Gen.GenSolveDispatch Gen.GenUnsatCore Gen.GenCoreAppend
+                       Model.VerdictModel Model.VerdictCacheModel.
 Import ListNotations.
 Open Scope Z_scope.
 
@@ -125,6 +128,79 @@ Definition c05_main_exit (a : list Z) : list Z :=
   | _ => []
   end.
 
+(* ---- the unsat-core cache *)
+
+Definition nats (l : list Z) : list nat := map Z.to_nat l.
+
+(* [len; items...] ++ rest -> (items, rest) *)
+Definition dec_list (l : list Z) : list nat * list Z :=
+  match l with
+  | len :: r => (nats (firstn (Z.to_nat len) r), skipn (Z.to_nat len) r)
+  | [] => ([], [])
+  end.
+
+(* -1 :: rest -> None ; len :: items ++ rest -> Some items *)
+Definition dec_ocore (l : list Z) : option (list nat) * list Z :=
+  match l with
+  | len :: r => if len <? 0 then (None, r) else let (c, rest) := dec_list l in (Some c, rest)
+  | [] => (None, [])
+  end.
+
+Fixpoint dec_lists (n : nat) (l : list Z) : list (list nat) * list Z :=
+  match n with
+  | O => ([], l)
+  | S n' => let (c, r) := dec_list l in let (cs, rest) := dec_lists n' r in (c :: cs, rest)
+  end.
+
+(* [ids as list; ncores; cores as lists] -> [hit] *)
+Definition c05_hit (a : list Z) : list Z :=
+  let (ids, r) := dec_list a in
+  match r with
+  | n :: r' => let (cores, _) := dec_lists (Z.to_nat n) r' in [bz (gen_check_unsat_cores mem_nat ids cores)]
+  | [] => []
+  end.
+
+(* [result is unsat; optional core] -> [appended] *)
+Definition c05_append (a : list Z) : list Z :=
+  match a with
+  | u :: r => let (c, _) := dec_ocore r in [bz (gen_append_guard (zb u) c)]
+  | [] => []
+  end.
+
+(* n x (kind; answer; ids as list; optional core) *)
+Fixpoint dec_qpaths (n : nat) (l : list Z) : list qpath * list Z :=
+  match n with
+  | O => ([], l)
+  | S n' => match l with
+            | k :: a :: r =>
+                let (ids, r1) := dec_list r in
+                let (c, r2) := dec_ocore r1 in
+                let (qs, rest) := dec_qpaths n' r2 in
+                (mkq (mkpath (dec_kind k) (dec_ans a)) ids c :: qs, rest)
+            | _ => ([], [])
+            end
+  end.
+
+Definition dec_cevent (z : Z) : cevent :=
+  if z =? -2 then CMainRaise else if z <? 0 then CMain
+  else if Z.even z then CStart (Z.to_nat (z / 2)) else CCb (Z.to_nat (z / 2)).
+
+(* [cache; ee; n; qpaths; events...] -> [status; label; code; normal; nstuck; #sat; #err; #unknown; #unsat;
+                                          shutdown flag; #pending; #cores; #hits; hit path ids...] *)
+Definition c05_crun (a : list Z) : list Z :=
+  match a with
+  | cache :: ee :: n :: r =>
+      let (qs, evs) := dec_qpaths (Z.to_nat n) r in
+      let s := crun (zb cache) (zb ee) qs (map dec_cevent evs) in
+      let status := match cmst s with MCrashed => 2 | MDone => match cjobs s with [] => 1 | _ => 0 end | _ => 0 end in
+      let v := match cresult s with Some v => v | None => (LError, -1) end in
+      [status; enc_label (fst v); snd v; natZ (cnormal s); natZ (cnstuck s);
+       counter (couts s) "sat"; counter (couts s) "err"; counter (couts s) "unknown"; counter (couts s) "unsat";
+       bz (cflag s); natZ (List.length (cjobs s)); natZ (List.length (ccores s)); natZ (List.length (chits s))]
+      ++ map natZ (chits s)
+  | _ => []
+  end.
+
 Definition c05_consts (_ : list Z) : list Z :=
   exitcode_values ++ [enc_label raised_label; raised_exitcode; no_tests_exit].
 
@@ -137,6 +213,9 @@ Definition table : list (string * (list Z -> list Z)) :=
     ("c05_from_result"%string, c05_from_result);
     ("c05_job"%string, c05_job);
     ("c05_main_exit"%string, c05_main_exit);
-    ("c05_consts"%string, c05_consts) ].
+    ("c05_consts"%string, c05_consts);
+    ("c05_hit"%string, c05_hit);
+    ("c05_append"%string, c05_append);
+    ("c05_crun"%string, c05_crun) ].
 
 Extraction "_build/C05/entries.ml" table.
